@@ -272,6 +272,9 @@ def check_C15(ctx, rep):
              'direction field with the literal "s" or "sn", for the server only under "r" or "rn" (so "sp"/"rp" padding lines and anything '
              'else never create a packet); every queued event is a NormalSent')
     check_trace_parser_table(ctx, rep, 'C15.R5')
+    rep.rule('C15.R6', 'side plumbing: sim_network_stack receives (state of the event\'s side, state of the other side) as selected by next.client; '
+             'peek_queue and pick_next receive (client, server) in that order')
+    check_side_plumbing(ctx, rep, 'C15.R6', only=('sim_network_stack', 'peek_queue', 'pick_next'))
     ps = prog.fn(SIM, 'SimQueue', 'push_sim')
     psa = an.get(ps)
     pfps = an.paths(ps, history=True)
@@ -488,6 +491,7 @@ def check_C16(ctx, rep):
     rep.count_exact('C16.R2', 'BlockingEnd events built in pick_next', len(ends), 1)
     pick_next_consults(ctx, rep, 'C16.R2', 'peek_blocked_exp', 'a blocking expiry that is not looked at never reports BlockingEnd')
     check_peek_blocked_exp(ctx, rep, 'C16.R2')
+    check_side_plumbing(ctx, rep, 'C16.R2', only=('peek_blocked_exp', 'peek_scheduled_action', 'do_scheduled_action', 'pick_next', 'peek_queue'))
     # a scheduled BlockOutgoing begins blocking only if the peek over the action slots finds it (shared with C17.R4)
     peek_nonstrict(ctx, rep, 'C16.R2', 'peek_scheduled_action', 'action')
     pick_next_consults(ctx, rep, 'C16.R2', 'peek_scheduled_action', 'a scheduled BlockOutgoing that is not looked at never begins blocking')
@@ -1077,6 +1081,7 @@ def check_C17(ctx, rep):
     # ---- R4
     peek_nonstrict(ctx, rep, 'C17.R4', 'peek_scheduled_action', 'action')
     pick_next_consults(ctx, rep, 'C17.R4', 'peek_scheduled_action', 'a scheduled action that is not looked at never fires')
+    check_side_plumbing(ctx, rep, 'C17.R4', only=('peek_scheduled_action', 'do_scheduled_action', 'pick_next'))
     rep.assumptions += ['that the due action is picked before simulated time passes it is NOT decided beyond eligibility of due-now slots',
                         'every CFG path is treated as feasible']
     return 'handler tables for action timers in the simulator: slot overwrite, Cancel table, fire-once lookup, event translation'
@@ -1315,6 +1320,7 @@ def check_C18(ctx, rep):
             rep.ob('C18.R2', di, 'unexpected-event:' + evn, False, '')
     peek_nonstrict(ctx, rep, 'C18.R4', 'peek_scheduled_internal_timer', 'timer')
     pick_next_consults(ctx, rep, 'C18.R4', 'peek_scheduled_internal_timer', 'a running timer that is not looked at never reports TimerEnd')
+    check_side_plumbing(ctx, rep, 'C18.R4', only=('peek_scheduled_internal_timer', 'do_internal_timer', 'pick_next'))
     rep.assumptions += ['expiry selection order among several due items is NOT decided', 'every CFG path is treated as feasible']
     return 'handler tables for internal timers in the simulator: start rule, store/TimerBegin pairing, fire-once expiry, eligibility of due-now timers'
 
@@ -1341,6 +1347,175 @@ def post_dominators(cfg):
                 pdom[n] = new
                 changed = True
     return pdom
+
+
+SIDE_TABLE = {
+    # callee suffix: [(argument index, side, field of that side's state or None for the state itself)]
+    'peek_scheduled_action': [(0, 'client', 'scheduled_action'), (1, 'server', 'scheduled_action')],
+    'peek_scheduled_internal_timer': [(0, 'client', 'scheduled_internal_timer'), (1, 'server', 'scheduled_internal_timer')],
+    'peek_blocked_exp': [(0, 'client', 'blocking_until'), (1, 'server', 'blocking_until')],
+    'peek_queue': [(1, 'client', None), (2, 'server', None), (3, 'network', 'client_aggregate_base_delay'), (4, 'network', 'server_aggregate_base_delay')],
+    'do_scheduled_action': [(0, 'client', None), (1, 'server', None)],
+    'do_internal_timer': [(0, 'client', None), (1, 'server', None)],
+    'pick_next': [(1, 'client', None), (2, 'server', None)],
+}
+
+
+def check_side_plumbing(ctx, rep, rid, only=None):
+    """the two sides are never crossed on the way down: every call of the simulator that takes a (client, server) pair receives the
+    client's state / slot in the client position and the server's in the server position (frozen table of the call sites of
+    sim_advanced and pick_next; sim_network_stack gets (own side, other side) by the branch on the event's side)"""
+    prog, an = ctx.prog, ctx.an
+    sa = sim_fn(prog, 'sim_advanced')
+    pn = sim_fn(prog, 'pick_next')
+    sn = prog.fn(SIM, 'SimState', 'new')
+    saa = an.get(sa)
+    roots = {}
+    for (b, f, a, t) in calls(saa):
+        if callee_key(f) == sn.key:
+            side = 'client' if a[0] == ('param', 1) else ('server' if a[0] == ('param', 2) else None)
+            dl = saa.blocks[b]['t']['d']
+            if side and not dl['pr']:
+                roots.setdefault(sa.key, {})[side] = ('local', dl['l'])
+    for (b, f, a, t) in calls(saa):
+        if callee_str(f).endswith('NetworkBottleneck::new'):
+            dl = saa.blocks[b]['t']['d']
+            if not dl['pr']:
+                roots.setdefault(sa.key, {})['network'] = ('local', dl['l'])
+    roots[pn.key] = {'client': ('param', 2), 'server': ('param', 3), 'network': ('param', 4)}
+
+    def root(e):
+        e = strip_sites(e)
+        while isinstance(e, tuple) and e and e[0] in ('ref', 'refv', 'load', 'deref', 'fld', 'idx', 'pick', 'view', 'var'):
+            e = e[1]
+        return e
+    n = 0
+    for fn in (sa, pn):
+        fa = an.get(fn)
+        rt = roots.get(fn.key, {})
+        for (b, f, a, t) in calls(fa):
+            cs = callee_str(f).split('::')[-1]
+            if cs in SIDE_TABLE and f.get('crate') == SIM and (only is None or cs in only):
+                for (i, side, fld) in SIDE_TABLE[cs]:
+                    if i >= len(a):
+                        rep.ob(rid, fn, 'side-plumbing:%s:arg%d' % (cs, i), False, 'call has %d arguments' % len(a))
+                        continue
+                    n += 1
+                    ok = rt.get(side) is not None and root(a[i]) == rt[side] and (fld is None or contains(a[i], lambda y: isinstance(y, tuple) and y and y[0] == 'fld' and y[3] == fld))
+                    rep.ob(rid, fn, 'side-plumbing:%s:%s' % (cs, side if fld is None else side + '.' + fld), ok, '%s(.. arg %d = %s ..)' % (cs, i, show(a[i])[:60]))
+            if cs == 'sim_network_stack' and fn is sa and (only is None or cs in only):
+                # (own side read-only, other side mutable), selected by next.client
+                pol = None
+                for (sb, e) in switch_conditions(fa):
+                    if is_field(e, 'client', 'SimEvent'):
+                        for (y, lab) in fa.cfg.succ[sb]:
+                            if fa.cfg.dominates(y, b) and [p for (p, l) in fa.cfg.pred[y]] == [sb]:
+                                pol = (lab[1] != '0') if lab[0] == 'sw' else ('0' in lab[1])
+                n += 1
+                own, other = ('client', 'server') if pol else ('server', 'client')
+                ok = pol is not None and len(a) >= 4 and root(a[2]) == rt.get(own) and root(a[3]) == rt.get(other)
+                rep.ob(rid, fn, 'side-plumbing:sim_network_stack:%s' % ('client-event' if pol else 'server-event'), ok,
+                       'sim_network_stack(.., %s, %s, ..) on the %s edge of next.client' % (show(a[2])[:20] if len(a) > 2 else '?', show(a[3])[:20] if len(a) > 3 else '?', pol))
+    rep.count_floor(rid, 'side-carrying arguments checked', n, 20 if only is None else 2)
+
+
+def check_filter_semantics(ctx, rep, rid):
+    """the filtered trace is the sub-sequence the filter names: an event is appended to the trace exactly when
+    (!only_network_activity || it was network activity) && (!only_client_events || it is a client event)"""
+    prog, an = ctx.prog, ctx.an
+    sa = sim_fn(prog, 'sim_advanced')
+    fa = an.get(sa)
+    loops = fa.cfg.loops()
+    main = [h for h, body in loops.items() if any(callee_str(f).endswith('pick_next') for (b, f, a, t) in calls(fa) if b in body)]
+    if len(main) != 1:
+        rep.fail_closed(rid, 'sim_advanced: main loop')
+        return
+    body = loops[main[0]]
+    pushes = [b for (b, f, a, t) in calls(fa) if callee_str(f).endswith('Vec::<T, A>::push') and b in body]
+    rep.count_exact(rid, 'trace pushes in the main loop', len(pushes), 1)
+    if len(pushes) != 1:
+        return
+    pb = pushes[0]
+    flt_c = lambda e: is_field(e, 'only_client_events', 'SimulatorArgs')
+    flt_n = lambda e: is_field(e, 'only_network_activity', 'SimulatorArgs')
+    # the decision region starts at the first test of a filter flag that dominates the push (facts are collected from there only)
+    firsts = [sb for (sb, e) in switch_conditions(fa) if (flt_c(e) or flt_n(e)) and fa.cfg.dominates(sb, pb) or
+              (contains(e, lambda y: flt_c(y) or flt_n(y)) and fa.cfg.dominates(sb, pb))]
+    if not firsts:
+        rep.ob(rid, sa, 'pushed-only-when-selected', False, 'no test of a filter flag dominates the trace push')
+        return
+    dom = fa.cfg.dom()
+    first = [x for x in firsts if all(fa.cfg.dominates(x, y) for y in firsts)]
+    start = first[0] if first else firsts[0]
+    pd = post_dominators(fa.cfg)
+    cands = pd[start] - {start}
+    ipd = None
+    for c in cands:
+        if all(c2 == c or c2 in pd[c] for c2 in cands):
+            ipd = c
+    from .paths import local_paths
+    if ipd is None:
+        rep.ob(rid, sa, 'pushed-only-when-selected', False, 'the filter decision does not reconverge')
+        return
+    lp = local_paths(prog, fa, start, {pb, ipd})
+
+    def val(S, pred):
+        vs = {f[2] for f in S if f[0] == 'btrue' and pred(f[1])}
+        return vs.pop() if len(vs) == 1 else None
+    is_cl = lambda e: is_field(e, 'client', 'SimEvent')
+
+    def is_na(e):
+        e = unload(e)
+        if isinstance(e, tuple) and e and e[0] == 'phi':
+            return all(is_na(x) for x in e[1])
+        return is_call(e, 'sim_network_stack')
+
+    def selected(S):
+        fc, fn_ = val(S, flt_c), val(S, flt_n)
+        c_ok = True if fc is False else (val(S, is_cl) if fc is True else None)
+        n_ok = True if fn_ is False else (val(S, is_na) if fn_ is True else None)
+        if c_ok is False or n_ok is False:
+            return False
+        if c_ok is True and n_ok is True:
+            return True
+        return None
+    to_push = [S for (e, S) in lp if e == pb]
+    to_join = [S for (e, S) in lp if e == ipd]
+    bad_push = [S for S in to_push if selected(S) is not True]
+    rep.ob(rid, sa, 'pushed-only-when-selected', bool(to_push) and not bad_push, 'every path to the trace push has each filter off or its subject true' + ('' if not bad_push else '; witness ' + show_facts(bad_push[0])))
+    bad_skip = [S for S in to_join if selected(S) is not False]
+    rep.ob(rid, sa, 'skipped-only-when-filtered-out', bool(to_join) and not bad_skip,
+           'a path that reaches the filter and does not push has a filter on with its subject false' + ('' if not bad_skip else '; witness ' + show_facts(bad_skip[0])))
+
+
+PICK_SOURCES = ('peek_scheduled_action', 'peek_scheduled_internal_timer', 'peek_blocked_exp', 'peek_aggregate_delay', 'peek_queue')
+
+
+def check_pick_next_none(ctx, rep, rid):
+    """pick_next reports "nothing left" only when every one of its five sources said so (each compared equal to Duration::MAX);
+    with a source left, the simulation must go on"""
+    prog, an = ctx.prog, ctx.an
+    from .paths import local_paths
+    pn = sim_fn(prog, 'pick_next')
+    pa = an.get(pn)
+    nones = [b for (b, k, v) in ret_defs(pa) if isinstance(v, tuple) and v and v[0] == 'agg' and v[2] == 'None']
+    rep.count_exact(rid, 'None results of pick_next', len(nones), 1)
+    for nb in nones:
+        lp = local_paths(prog, pa, 0, {nb})
+        is_max = lambda e: isinstance(e, tuple) and e and e[0] == 'cdef' and e[1].endswith('::MAX')
+        bad = None
+        for (e, S) in lp:
+            for src in PICK_SOURCES:
+                def is_src(x, src=src):
+                    # the result of that peek itself (or the duration component of its pair), not an expression that merely uses it
+                    x = unload(x)
+                    while isinstance(x, tuple) and x and x[0] == 'fld':
+                        x = unload(x[1])
+                    return is_call(x, src)
+                if not any(f[0] == 'cmp' and f[1] == 'eq' and f[5] is True and ((is_src(f[2]) and is_max(f[3])) or (is_src(f[3]) and is_max(f[2]))) for f in S):
+                    bad = (src, S)
+        rep.ob(rid, pn, 'None-only-when-all-five-sources-are-exhausted', bool(lp) and bad is None,
+               'paths to the None result: %d' % len(lp) + ('' if bad is None else '; %s not established == Duration::MAX on a path: %s' % (bad[0], show_facts(bad[1]))))
 
 
 def check_C19(ctx, rep):
@@ -1525,6 +1700,7 @@ def check_C19(ctx, rep):
     mp = [v for (pe, v, site) in field_stores(pta, 'max_pps', 'SimQueue')]
     rep.ob('C19.R3', pt, 'max_pps-from-the-window-maxima', len(mp) == 1 and mp[0][0] == 'agg' and mp[0][2] == 'Some' and
            contains(mp[0], lambda y: is_call(y, 'WindowCount::add') or (isinstance(y, tuple) and y and y[0] in ('phi', 'rec', 'call', 'bin'))), 'max_pps = %s' % (shape(mp[0]) if mp else None))
+    check_filter_semantics(ctx, rep, 'C19.R2')
     # ---- R4
     loops = saa.cfg.loops()
     main = [h for h, body in loops.items() if any(callee_str(f).endswith('pick_next') for (b, f, a, t) in calls(saa) if b in body)]
@@ -1589,6 +1765,8 @@ def check_C19(ctx, rep):
     rep.rule('C19.R6', 'totality of the queue hand-over: SimQueue::pop_blocking removes the event peek_blocking handed out (the `.unwrap()` on its '
              'result in sim_network_stack relies on it)')
     check_pop_blocking(ctx, rep, 'C19.R6')
+    check_side_plumbing(ctx, rep, 'C19.R5')
+    check_pick_next_none(ctx, rep, 'C19.R4')
     rep.rule('C19.R7', 'a copy of the simulator\'s inputs and state is a faithful copy: every Clone impl of the simulator crate (SimQueue and its '
              'event queues, SimEvent, ScheduledAction, the network model, SimulatorArgs ...) is the compiler-derived field-wise clone, so that '
              'running a parsed queue and running its clone are the same simulation')
@@ -1989,11 +2167,15 @@ def check_sim_args_passthrough(ctx, rep, rid):
             ok = a[0] == ('param', 1) and a[1] == ('param', 3) and a[2] == ('param', 4) and a[3] == ('param', 2)
             rep.ob(rid, sn, 'forwards-machines-fractions-time', ok, 'Framework::new(%s)' % ', '.join(show(x)[:20] for x in a[:4]))
     sides = []
+    state_local = {}
     for (b, f, a, t) in calls(saa):
         if callee_key(f) == sn.key:
             m = a[0]
             side = 'client' if m == ('param', 1) else ('server' if m == ('param', 2) else '?')
             sides.append(side)
+            dl = saa.blocks[b]['t']['d']
+            if not dl['pr']:
+                state_local[side] = ('local', dl['l'])
             okp = is_field(a[2], 'max_padding_frac_' + side, 'SimulatorArgs')
             okb = is_field(a[3], 'max_blocking_frac_' + side, 'SimulatorArgs')
             oki = contains(a[4], lambda x: isinstance(x, tuple) and x and x[0] == 'fld' and x[3] == side + '_integration')
@@ -2013,3 +2195,10 @@ def check_sim_args_passthrough(ctx, rep, rid):
                         if pol is bool(flag) and saa.cfg.dominates(y, b) and [p for (p, l) in saa.cfg.pred[y]] == [sb]:
                             okp = True
             rep.ob(rid, sa, 'trigger_update-for-events-own-side:%s' % ('client' if flag else 'server'), okp, '')
+            # ... and with that side's state object
+            want = state_local.get('client' if flag else 'server')
+            got = a[0]
+            while isinstance(got, tuple) and got and got[0] in ('ref', 'refv', 'load'):
+                got = got[1]
+            rep.ob(rid, sa, 'trigger_update-gets-own-side-state:%s' % ('client' if flag else 'server'), want is not None and strip_sites(got) == want,
+                   'trigger_update(%s, .., %s)' % (show(a[0]), bool(flag)))
